@@ -301,6 +301,42 @@ func (w *World) zeroWindow(r *hx.Run, c *conn, sport uint16) {
 	w.observe(c, from)
 }
 
+// halfCloseClosedWindow: the peer has sent its FIN, the application writes more than the peer's window admits and
+// shuts down; everything sent is acknowledged with a closed window, then the window reopens: the rest of the data
+// and the FIN must still come out.
+func (w *World) halfCloseClosedWindow(r *hx.Run, c *conn, sport uint16) {
+	small := uint16(1 + r.R.Intn(40))
+	from := len(w.Seen)
+	w.Seg(sport, LPort, 17, c.pSeq, c.sNxt, small, c.opts(r), nil)
+	c.finSent = true
+	c.pSeq++
+	w.observe(c, from)
+	b := make([]byte, int(small)+1+r.R.Intn(3000))
+	r.R.Read(b)
+	from = len(w.Seen)
+	w.Write(c.id, b)
+	w.observe(c, from)
+	if r.R.Intn(4) != 0 {
+		from = len(w.Seen)
+		w.Shutdown(c.id, "w")
+		w.observe(c, from)
+	}
+	from = len(w.Seen)
+	w.Seg(sport, LPort, 16, c.pSeq, c.sNxt, 0, c.opts(r), nil)
+	c.sAcked = c.sNxt
+	w.observe(c, from)
+	if r.R.Intn(3) == 0 {
+		w.RTO(c.id, 0)
+	}
+	from = len(w.Seen)
+	w.Seg(sport, LPort, 16, c.pSeq, c.sNxt, 30000, c.opts(r), nil)
+	w.observe(c, from)
+	from = len(w.Seen)
+	w.Seg(sport, LPort, 16, c.pSeq, c.sNxt, 65535, c.opts(r), nil)
+	c.sAcked = c.sNxt
+	w.observe(c, from)
+}
+
 // lossEpisode: a flight of segments of which the first is lost: duplicate ACKs, then the retransmission
 // is acknowledged partially or fully, sometimes followed by silence (timeout).
 func (w *World) lossEpisode(r *hx.Run, c *conn, sport uint16) {
@@ -354,6 +390,8 @@ func Gen(r *hx.Run, focus string) {
 		switch {
 		case k == 0 || (focus == "C02" && k < 3):
 			w.zeroWindow(r, c, sport)
+		case k == 11 || (focus == "C02" && k < 6):
+			w.halfCloseClosedWindow(r, c, sport)
 		case k == 3 || (focus == "C05" && k < 8):
 			w.lossEpisode(r, c, sport)
 		}
